@@ -82,6 +82,10 @@ class Env(object):
         try:
             if form == 'text':
                 arg = fm.to_text(t)
+            elif form == 'textsym':
+                # symbolic operators (~ & | -->), extra parentheses around atoms, tight layout
+                from .c10 import tokens_of, join
+                arg = join(tokens_of(t, checker, sym=True, extra=(fm.size(t) % 2 == 0)), tight=(1 if fm.size(t) % 3 else 2))
             else:
                 arg = fm.to_lib(t, fm.lang(objlang))
                 if form == 'str':
@@ -165,7 +169,8 @@ def bool_on(env, inp):
                      'and3': ('A', ('and', f, g, f)), 'imp': ('A', ('imp', f, g))}
         else:
             items = {'f': f, 'g': g, 'not': N(f), 'and': ('and', f, g), 'or': ('or', f, g),
-                     'imp': ('imp', f, g), 'and3': ('and', f, g, N(f)), 'or3': ('or', g, f, N(f))}
+                     'imp': ('imp', f, g), 'and3': ('and', f, g, N(f)), 'or3': ('or', g, f, N(f)),
+                     'and4': ('and', f, g, g, f), 'or5': ('or', f, f, g, f, g)}
         r = {}
         refused = False
         for k, t in items.items():
@@ -191,7 +196,9 @@ def bool_on(env, inp):
                    ('or', r['f'] | r['g'], r['or'] == r['f'] | r['g']),
                    ('imp', (S & ~r['f']) | r['g'], r['imp'] == (S & ~r['f']) | r['g']),
                    ('and3', 0, r['and3'] == 0),
-                   ('or3', S, r['or3'] == S)]
+                   ('or3', S, r['or3'] == S),
+                   ('and4', r['f'] & r['g'], r['and4'] == r['f'] & r['g']),
+                   ('or5', r['f'] | r['g'], r['or5'] == r['f'] | r['g'])]
         for name, want, ok in exp:
             if not ok:
                 return Failure('bool', inp, mc.show_mask(want) if isinstance(want, int) else want,
@@ -216,7 +223,7 @@ def cross_on(env, inp):
     for checker in ('CTL', 'LTL', 'CTLS'):
         if fm.kind(checker, f) != 'state':
             continue
-        combos = [(checker, 'obj'), ('CTLS', 'obj'), ('CTLS', 'str'), (None, 'text')]
+        combos = [(checker, 'obj'), ('CTLS', 'obj'), ('CTLS', 'str'), (None, 'text'), (None, 'textsym')]
         if checker == 'CTLS':
             # README: the CTLS module model checks CTL and LTL formulas too
             for sib in ('CTL', 'LTL'):
@@ -422,6 +429,10 @@ def run(ctx):
                                                    'ltl_leaves': 2, 'star_k': 1, 'cross_k': 1, 'cross_stride': 2})
     else:
         f = core.run_sharded(ctx, enum_shard, payload)
+        if f is None:
+            ctx.scopes.append('every 1373rd of S(3) x strided law tables')
+            f = core.run_sharded(ctx, enum_shard, {'ns': [3], 'k_stride': 1373, 'f_stride': 11, 'g_stride': 6,
+                                                   'ltl_leaves': 2, 'star_k': 1, 'cross_k': 1, 'cross_stride': 5})
     if f is not None:
         ctx.violation(f)
         return
